@@ -150,12 +150,12 @@ pub fn record(seed: u64, tier: &str, out: &str) {
     let thorough = tier == "thorough";
     let mut rng = Rng::new(seed ^ 0xC07);
     let mut t = TraceWriter::create(out);
-    let k = if thorough { 6 } else { 5 };
+    let k = if thorough { 8 } else { 5 };
     box_for!(i64, t, "i64", k);
     box_for!(i32, t, "i32", if thorough { 6 } else { 3 });
     box_for!(i128, t, "i128", if thorough { 6 } else { 3 });
     let tabs = t.events;
-    let n = if thorough { 20000 } else { 4000 };
+    let n = if thorough { 250_000 } else { 4000 };
     big_for!(i64, t, "i64", 30, n, &mut rng);
     big_for!(i32, t, "i32", 14, n / 3, &mut rng);
     big_for!(i128, t, "i128", 60, n / 3, &mut rng);
